@@ -5,6 +5,7 @@ import (
 	"fmt"
 	"os"
 	"path/filepath"
+	"sort"
 	"strings"
 	"testing"
 
@@ -22,22 +23,144 @@ import (
 type Case struct {
 	Project jgen.Project `json:"project"`
 	Initial int          `json:"initial"` // units present before the first run
-	Ops     []string     `json:"ops"`     // "run" | "add" (adds the next unit not yet present)
+	Ops     []string     `json:"ops"`     // "run" | "add" (adds the next unit not yet present) | "restore" (every present file gets its original bytes back)
+	// the widened domain (zero values = the cases of the first version of this check)
+	Enc     []string    `json:"enc,omitempty"`     // per file: "" = the text as UTF-8, "latin1" = one byte per character (all characters of the text are below U+0100)
+	Extra   []jgen.File `json:"extra,omitempty"`   // files of the project that are not Java sources
+	DirName string      `json:"dirName,omitempty"` // the project directory is this sub-directory of the scratch directory ("" = the scratch directory itself)
+	DirArg  string      `json:"dirArg,omitempty"`  // appended to the directory handed to the tool ("" or "/")
+	Cli     *CliOpts    `json:"cli,omitempty"`     // run `coca refactor` as a process instead of calling the API
 }
 
-func gen(t *rapid.T) Case {
-	p := jgen.GenProject(t, jgen.Opts{ExtraImps: true, Bodies: rapid.Bool().Draw(t, "bodies"), MultiByte: true, Interfaces: true, MaxUnits: 6, MaxMethods: 3})
-	for i := range p.Files {
-		if rapid.IntRange(0, 7).Draw(t, "crlf") == 0 {
-			p.Files[i].Text = strings.ReplaceAll(p.Files[i].Text, "\n", "\r\n")
+// rootPool: directories the units are put under; none makes a file a test file ("src/test/java/") or test data ("testData").
+var rootPool = []string{"", "src/main/java/", "core/src/main/java/", "src/", "test/", "tests/unit/", "testdata/", "src/test/javax/", "src/testing/java/",
+	"my project/", "проект/", "a.b/", "x/y/z/w/v/u/t/s/r/q/", "Test.java.d/sources/", "legacy.java/"}
+
+var dirNames = []string{"", "proj", "my proj", "src", "Tests", "проект", "test-data", "old.java"}
+
+// extraPool: what else lies in a project; the .gitignore files match none of the generated paths.
+var extraPool = []jgen.File{
+	{Path: "README.md", Text: "# Demo\n\nimport org.fake.Ghost;\n"},
+	{Path: "pom.xml", Text: "<project>\n  <modelVersion>4.0.0</modelVersion>\n</project>\n"},
+	{Path: ".gitignore", Text: "*.class\ntarget/\n"},
+	{Path: ".gitignore", Text: "# IDE\n.idea/\n*.iml\n\nbuild/\n/out/\n*.log\n"},
+	{Path: "notes/Old.javax", Text: "package old;\nimport org.fake.Ghost;\nclass Old { }\n"},
+	{Path: "notes/Thing.java.bak", Text: "package old;\nimport org.fake.Ghost;\nclass Thing { }\n"},
+	{Path: "docs/App.kt", Text: "import org.fake.Ghost\n\nfun main() { }\n"},
+	{Path: "docs/java", Text: "import org.fake.Ghost;\n"},
+	{Path: "build.gradle", Text: "plugins { id 'java' }\n"},
+}
+
+func gen(t *rapid.T) Case    { return genCase(t, false) }
+func genCli(t *rapid.T) Case { return genCase(t, true) }
+
+func genCase(t *rapid.T, viaCli bool) Case {
+	exotic := rapid.IntRange(0, 3).Draw(t, "exoticNames") == 3
+	p := jgen.GenProject(t, jgen.Opts{ExtraImps: true, Bodies: rapid.Bool().Draw(t, "bodies"), MultiByte: true, Interfaces: true, MaxUnits: 6, MaxMethods: 3,
+		WordNames: true, WordDirs: true, ExoticNames: exotic})
+	for i := range p.Units {
+		// what this check does not look at (and what the layout variants below would make stale)
+		p.Units[i].Funcs, p.Units[i].Fields, p.Units[i].Annotations = nil, nil, nil
+	}
+	// local units at drawn places between the jgen units
+	nLocal := rapid.IntRange(0, 4).Draw(t, "nLocal")
+	tiny := false
+	if rapid.IntRange(0, 19).Draw(t, "manyFiles") == 19 {
+		nLocal, tiny = rapid.IntRange(8, 40).Draw(t, "nLocalMany"), true
+	}
+	if nLocal > 0 {
+		lc := newLctx(t)
+		for _, f := range p.Files {
+			lc.paths[f.Path] = true
+		}
+		for k := 0; k < nLocal; k++ {
+			f, u := genLocalUnit(t, lc, tiny)
+			at := rapid.IntRange(0, len(p.Files)).Draw(t, "localAt")
+			p.Files = append(p.Files[:at:at], append([]jgen.File{f}, p.Files[at:]...)...)
+			p.Units = append(p.Units[:at:at], append([]jgen.UnitTruth{u}, p.Units[at:]...)...)
 		}
 	}
-	c := Case{Project: p, Initial: rapid.IntRange(1, len(p.Units)).Draw(t, "initial")}
+	// layout variants, directories, line ends, encodings
+	roots := []string{""}
+	if rapid.IntRange(0, 2).Draw(t, "otherRoots") == 2 {
+		roots = nil
+		for k, n := 0, rapid.IntRange(1, 3).Draw(t, "nRoots"); k < n; k++ {
+			roots = append(roots, rapid.SampledFrom(rootPool).Draw(t, "root"))
+		}
+	}
+	c := Case{Enc: make([]string, len(p.Files))}
+	for i := range p.Files {
+		tweak(t, &p.Files[i], &p.Units[i])
+		if len(roots) > 1 || roots[0] != "" {
+			r := roots[rapid.IntRange(0, len(roots)-1).Draw(t, "rootOf")]
+			p.Files[i].Path = r + p.Files[i].Path
+			p.Units[i].Path = p.Files[i].Path
+		}
+		text := p.Files[i].Text
+		switch rapid.IntRange(0, 9).Draw(t, "lineEnds") {
+		case 7, 8:
+			text = strings.ReplaceAll(text, "\n", "\r\n")
+			p.Units[i].Features = append(p.Units[i].Features, "crlf")
+		case 9: // a file edited on both systems: some lines end in CR LF
+			k, off := rapid.IntRange(2, 4).Draw(t, "crlfEvery"), rapid.IntRange(0, 3).Draw(t, "crlfFrom")
+			ls := strings.Split(text, "\n")
+			for j := range ls {
+				if j < len(ls)-1 && (j+off)%k == 0 {
+					ls[j] += "\r"
+				}
+			}
+			text = strings.Join(ls, "\n")
+			p.Units[i].Features = append(p.Units[i].Features, "crlf_on_some_lines")
+		}
+		ascii := true
+		for _, f := range p.Units[i].Features {
+			if f == "nonascii_identifier" {
+				ascii = false
+			}
+		}
+		local := len(p.Units[i].Features) > 0 && p.Units[i].Features[0] == "local_unit"
+		if (local && ascii || !local && !exotic) && rapid.IntRange(0, 9).Draw(t, "latin1") == 9 {
+			// a source in ISO 8859-1: every character outside ASCII stands in a comment or literal
+			text = strings.Map(func(r rune) rune {
+				if r > 0xff {
+					return 'é'
+				}
+				return r
+			}, text)
+			c.Enc[i] = "latin1"
+		}
+		p.Files[i].Text = text
+	}
+	seen := map[string]bool{}
+	for _, f := range p.Files {
+		seen[f.Path] = true
+	}
+	if n := rapid.IntRange(0, 3).Draw(t, "nExtra"); n > 0 {
+		for k := 0; k < n; k++ {
+			x := rapid.SampledFrom(extraPool).Draw(t, "extra")
+			if !seen[x.Path] {
+				seen[x.Path] = true
+				c.Extra = append(c.Extra, x)
+			}
+		}
+	}
+	c.Project = p
+	c.DirName = rapid.SampledFrom(dirNames).Draw(t, "dirName")
+	if rapid.IntRange(0, 5).Draw(t, "dirArgSlash") == 5 {
+		c.DirArg = "/"
+	}
+	c.Initial = rapid.IntRange(1, len(p.Units)).Draw(t, "initial")
 	n := rapid.IntRange(0, 3).Draw(t, "nOps")
 	for i := 0; i < n; i++ {
-		c.Ops = append(c.Ops, rapid.SampledFrom([]string{"run", "add", "add"}).Draw(t, "op"))
+		c.Ops = append(c.Ops, rapid.SampledFrom([]string{"run", "add", "add", "restore"}).Draw(t, "op"))
 	}
 	c.Ops = append(c.Ops, "run", "run")
+	if viaCli {
+		c.Cli = genCliOpts(t)
+		if c.DirName == "" {
+			c.DirName = "proj"
+		}
+	}
 	return c
 }
 
@@ -82,35 +205,74 @@ func allowed(u jgen.UnitTruth, orig, got string) string {
 	return ""
 }
 
+// bytesOf is what is written to disk for file i.
+func bytesOf(c Case, i int) string {
+	text := c.Project.Files[i].Text
+	if i < len(c.Enc) && c.Enc[i] == "latin1" {
+		b := make([]byte, 0, len(text))
+		for _, r := range text {
+			if r > 0xff {
+				r = '?'
+			}
+			b = append(b, byte(r))
+		}
+		return string(b)
+	}
+	return text
+}
+
 func check(c Case) pbt.Verdict {
-	dir := cli.Scratch("c06-")
-	defer os.RemoveAll(dir)
+	scratch := cli.Scratch("c06-")
+	defer os.RemoveAll(scratch)
+	dir := scratch
+	if c.DirName != "" {
+		dir = filepath.Join(scratch, c.DirName)
+		if err := os.MkdirAll(dir, 0755); err != nil {
+			panic(err)
+		}
+	}
+	// a text the shipped parser rejects is outside the domain
+	orig := make([]string, len(c.Project.Files))
+	for i := range c.Project.Files {
+		orig[i] = bytesOf(c, i)
+		if errs := jgen.SyntaxErrors(orig[i]); len(errs) > 0 {
+			pbt.Count("rejected_by_parser", 1)
+			if os.Getenv("C06_SHOW_REJECTED") != "" { // while developing the generator: report the rejected text
+				return pbt.Fail("generator: the parser rejects %s: %v", c.Project.Files[i].Path, errs)
+			}
+			return pbt.Verdict{Skip: true}
+		}
+	}
 	ast_java.VerifResetAstJava()
 	base.VerifResetBase()
 	models.VerifResetModels()
 	unused.VerifResetUnused()
+	extra := map[string]string{}
+	for _, x := range c.Extra {
+		extra[x.Path] = x.Text
+	}
+	cli.WriteTree(dir, extra)
 	present := 0
 	add := func() bool {
 		if present >= len(c.Project.Units) {
 			return false
 		}
-		f := c.Project.Files[present]
-		cli.WriteTree(dir, map[string]string{f.Path: f.Text})
+		cli.WriteTree(dir, map[string]string{c.Project.Files[present].Path: orig[present]})
 		present++
 		return true
 	}
 	for present < c.Initial {
 		add()
 	}
-	read := func(i int) string {
-		data, err := os.ReadFile(filepath.Join(dir, filepath.FromSlash(c.Project.Files[i].Path)))
+	readPath := func(rel string) string {
+		data, err := os.ReadFile(filepath.Join(dir, filepath.FromSlash(rel)))
 		if err != nil {
-			return "<unreadable: " + err.Error() + ">"
+			return "<unreadable: " + strings.ReplaceAll(err.Error(), scratch, "") + ">"
 		}
 		return string(data)
 	}
 	cleaned := map[int]string{} // unit -> bytes after the first run that saw it
-	runs, history := 0, []string{}
+	history := []string{}
 	for _, op := range c.Ops {
 		if op == "add" {
 			if add() {
@@ -118,16 +280,27 @@ func check(c Case) pbt.Verdict {
 			}
 			continue
 		}
-		runs++
+		if op == "restore" {
+			for i := 0; i < present; i++ {
+				cli.WriteTree(dir, map[string]string{c.Project.Files[i].Path: orig[i]})
+			}
+			cleaned = map[int]string{}
+			history = append(history, "restore")
+			continue
+		}
 		history = append(history, "run")
-		if p := pbt.Call(func() {
-			app := unused.NewRemoveUnusedImportApp(dir)
+		if c.Cli != nil {
+			if v := runCli(c, scratch, dir, history); v != nil {
+				return *v
+			}
+		} else if p := pbt.Call(func() {
+			app := unused.NewRemoveUnusedImportApp(dir + c.DirArg)
 			app.Refactoring(app.Analysis())
 		}); p != "" {
-			return pbt.Fail("history %v: removal panicked: %s", history, p)
+			return pbt.Fail("history %v: removal panicked: %s", history, strings.ReplaceAll(p, scratch, ""))
 		}
 		for i := 0; i < present; i++ {
-			got := read(i)
+			got := readPath(c.Project.Files[i].Path)
 			u := c.Project.Units[i]
 			if before, ok := cleaned[i]; ok {
 				if got != before {
@@ -135,20 +308,31 @@ func check(c Case) pbt.Verdict {
 				}
 				continue
 			}
-			if msg := allowed(u, c.Project.Files[i].Text, got); msg != "" {
+			if msg := allowed(u, orig[i], got); msg != "" {
 				return pbt.Fail("history %v: %s: %s", history, u.Path, msg)
 			}
 			cleaned[i] = got
+		}
+		for _, x := range c.Extra {
+			if got := readPath(x.Path); got != x.Text {
+				return pbt.Fail("history %v: %s is not a Java source and was changed\n%s", history, x.Path, diff(x.Text, got))
+			}
 		}
 	}
 	v := pbt.Verdict{}
 	withDelete, keep := 0, 0
 	kinds := map[string]bool{}
+	bases := map[string]bool{}
 	for i := 0; i < present; i++ {
-		hasDel := false
-		for _, im := range c.Project.Units[i].Imports {
+		u := c.Project.Units[i]
+		nDel, first := 0, 0
+		for _, im := range u.Imports {
+			if first == 0 || im.Line < first {
+				first = im.Line
+			}
 			if im.Verdict == "delete" {
-				hasDel = true
+				nDel++
+				kinds["delete:"+im.Why] = true
 			}
 			if im.Verdict == "keep" {
 				keep++
@@ -158,8 +342,44 @@ func check(c Case) pbt.Verdict {
 				kinds["free:"+im.Why] = true
 			}
 		}
-		if hasDel {
+		if nDel > 0 {
 			withDelete++
+		}
+		for _, f := range u.Features {
+			if f != "usage_method" {
+				kinds["unit:"+f] = true
+			}
+		}
+		for _, n := range []int{9, 17, 33, 65} {
+			if len(u.Imports) >= n {
+				kinds[fmt.Sprintf("unit:imports>=%d", n)] = true
+			}
+		}
+		for _, n := range []int{10, 50} {
+			if nDel >= n {
+				kinds[fmt.Sprintf("unit:deletions>=%d", n)] = true
+			}
+		}
+		switch {
+		case first == 1:
+			kinds["unit:import_on_line_1"] = true
+		case first >= 100:
+			kinds["unit:first_import_line>=100"] = true
+		case first >= 10:
+			kinds["unit:first_import_line>=10"] = true
+		}
+		if i < len(c.Enc) && c.Enc[i] == "latin1" {
+			kinds["unit:latin1"] = true
+		}
+		b := u.Path[strings.LastIndex(u.Path, "/")+1:]
+		if bases[b] {
+			kinds["same_file_name_in_two_directories"] = true
+		}
+		bases[b] = true
+		for _, r := range rootPool[1:] {
+			if strings.HasPrefix(u.Path, r) {
+				kinds["root:"+r] = true
+			}
 		}
 	}
 	for k := range kinds {
@@ -168,9 +388,33 @@ func check(c Case) pbt.Verdict {
 	if present >= 2 {
 		v.Classes = append(v.Classes, "files>=2")
 	}
+	for _, n := range []int{9, 17, 33} {
+		if present >= n {
+			v.Classes = append(v.Classes, fmt.Sprintf("files>=%d", n))
+		}
+	}
 	if present > c.Initial {
 		v.Classes = append(v.Classes, "file_added_between_runs")
 	}
+	for _, op := range c.Ops {
+		if op == "restore" {
+			v.Classes = append(v.Classes, "files_restored_between_runs")
+			break
+		}
+	}
+	if len(c.Extra) > 0 {
+		v.Classes = append(v.Classes, "other_files_in_project")
+	}
+	if c.DirName != "" {
+		v.Classes = append(v.Classes, "dir:"+c.DirName)
+	}
+	if c.DirArg != "" {
+		v.Classes = append(v.Classes, "dir_argument_with_slash")
+	}
+	if c.Cli != nil {
+		v.Classes = append(v.Classes, c.Cli.labels()...)
+	}
+	sort.Strings(v.Classes)
 	v.NonTrivial = present >= 2 && withDelete >= 2 && keep >= 1
 	return v
 }
@@ -195,10 +439,20 @@ func diff(a, b string) string {
 func init() {
 	pbt.SetProperty("C06")
 	jgen.SetExcluded(pbt.Excluded)
-	pbt.Describe("rapid-generated directories of 1-6 conventional Java units (jgen) whose import lines carry a verdict by construction: must-keep (wildcard, static wildcard, simple name used as field / parameter / return / generic-argument type, superclass, annotation, `new`, static receiver, catch type, throws, used static import), must-delete (single-type import whose simple name occurs nowhere else in the file) and free (unused static single import); imports in any order, separated by blank lines, after header comments. History: some units present, then a rapid-generated sequence of `run removal` / `add the next unit`, always ending with two runs, all in one process without resetting the tool's state in between. Oracle after every run: every present file equals its original minus whole import lines that respect the verdicts, and a file cleaned by an earlier run is byte-identical afterwards. Non-trivial = >= 2 files present, >= 2 of them with a must-delete import, >= 1 must-keep import; distinct = hash of the case.",
+	pbt.Describe("rapid-generated directories of conventional Java files whose import lines carry a verdict by construction: must-keep (wildcard, static wildcard, simple name used as a type, annotation, creation, static receiver or catch type, used static import), must-delete (single-type import whose simple name occurs nowhere else in the file) and free (unused static single import). "+
+		"Units: 1-6 jgen units (bodies of every kind; uses as field / parameter / return / generic-argument type, superclass, annotation, `new`, static receiver of a method / field / method reference, catch type, throws, cast, instanceof, class literal, array, nested-type qualifier, used static method; class names and package directories with the words test / tests / util / main in them, rarely names with `_` and letters outside ASCII) plus 0-4 (rarely 8-40) locally generated import-centred units: a class, interface, enum, annotation type, record, or a package-info.java without imports; with or without package declaration; 0-130 imports; every imported name used in one of ~150 syntactic positions (type of a local / field / parameter / varargs / return / resource / for / foreach / lambda parameter, type argument at any depth, wildcard bound, type-parameter bound, extends / implements / interface extends at any position, throws and multi-catch at any position, cast, intersection cast, instanceof with and without pattern, class literal, constructor / array constructor reference, record component, annotation element; annotation on type / field / method / parameter / local / type use, with arguments, nested in another annotation, class or constant of the name as annotation value; creation plain / generic / diamond / array / anonymous / nested / as argument, receiver, this(...) and super(...) argument, in lambdas and initializers; static receiver of calls, fields, chains over several lines, generic calls, method references, in conditions, operands, case labels, array indexes, ternaries, assignments, lambdas, synchronized, assert, enum-constant arguments, field and interface-constant initializers), placed in a method, constructor, static or instance initializer, lambda block, nested class, anonymous class or a second top-level type; statically imported constants used as a bare name in every expression position, statically imported methods named like contextual keywords (open, with, record, ...), statically imported nested types; packages whose segments are contextual keywords; imported names of one letter, with `_`, digits, letters outside ASCII (also as first letter), 60-320 characters, acronyms, capitalised contextual keywords; names drawn from a pool shared by the units of a case, so that a name used in one file is unused in another; unused imports whose simple name is a prefix / extension / suffix / case variant / inner part of a used name, a case variant of a called method, or a nested class of a used class; duplicate import lines (used and unused); file names like Contest.java, Latest.java, TestHelper.java and the same file name in two directories. "+
+		"Layout variants of every unit: import lines spelled with tabs, runs of blanks, indentation, blanks before `;`, around dots and at the line end, comments before / inside / behind the declaration; blank, blank-only, comment and commented-out-import lines and block comments whose lines look like imports or package declarations between the imports, in the header and behind the type; 1-4 leading blank lines; licence headers of 2-130 lines (first import on line 1 ... >100); text, blank lines or blanks behind the closing brace, with or without final line end; blanks at arbitrary line ends; a line of 4097-5200 or 65537-70000 bytes; LF, CR LF or CR LF on some lines only; UTF-8 or ISO 8859-1 (bytes that are not valid UTF-8, in comments and literals). "+
+		"Directory: units under 1-3 roots (src/main/java/, test/, tests/unit/, testdata/, src/test/javax/, src/testing/java/, names with a blank, a dot, letters outside ASCII, ending in .java, ten levels deep); project directory named proj, `my proj`, src, Tests, test-data, old.java, ...; directory argument with or without trailing slash; 0-3 other files (README, pom.xml, a .gitignore matching nothing generated, *.javax, *.java.bak, *.kt holding import-like lines), which must stay byte-identical. "+
+		"History: some units present, then a rapid-generated sequence of `run removal` / `add the next unit` / `restore the original bytes of every present file`, always ending with two runs, all in one process without resetting the tool's state in between (check `removal`), or every run as one process `coca refactor -m <cfg> -p <dir>` with the options spelled -m/-p, --move/--path, with `=`, in either order, the directory absolute, relative, `.`, with `./` or a trailing slash, the move configuration missing, empty or naming a class the project does not have (check `removal_cli`). "+
+		"Oracle after every run: every present file equals its original minus whole import lines that respect the verdicts, and a file cleaned by an earlier run is byte-identical afterwards. Non-trivial = >= 2 files present, >= 2 of them with a must-delete import, >= 1 must-keep import; distinct = hash of the case.",
 		"a name that occurs only inside a comment or literal is never used as an import's simple name (the statement does not say whether that counts as a reference)",
-		"one import per line")
+		"one import per line, and nothing but blanks and comments next to it; an import declaration is not spread over several lines (the statement speaks of deleting whole import lines)",
+		"no byte order mark (javac rejects it), no `$` in class names, no class names starting with a lower-case letter, `_` or `$`",
+		"an imported simple name is not used in fully qualified form with another package, as a type variable, or only as the member class in `outer.new Inner()` (the language does not resolve that name through the import): whether such an import must stay is open",
+		"no test sources (*Test.java, *Tests.java, src/test/java/), no path containing `testData`, no .gitignore that matches a source file: the tool leaves such files alone and the statement does not say whether it may",
+		"generated texts that the shipped parser rejects are skipped (counter rejected_by_parser)")
 	pbt.Register("removal", 600, 2500, gen, check)
+	pbt.Register("removal_cli", 40, 150, genCli, check)
 }
 
 func TestProp(t *testing.T)   { pbt.Main(t) }
